@@ -1,6 +1,7 @@
 package rules
 
 import (
+	"go/types"
 	"fmt"
 	"sort"
 	"strings"
@@ -300,59 +301,80 @@ func ruleR12c(c *Check) {
 
 // R12e: the filter conjunction
 func ruleR12e(c *Check) {
-	c.Rule("R12e", "the node filter returns true for a target only on a path where the type-selection, pattern and tag predicates returned true and the exclude-tag predicate returned false", 4)
+	c.Rule("R12e", "the node filter returns true for a target only on a path where, for each of the selector's filters (type selection, patterns, tags, exclude-tags), the predicate computed from that filter answered with the accepting polarity (or the filter list is empty)", 4)
 	fn := selectorFilterFunc(c, "R12e")
 	if fn == nil {
 		return
 	}
 	fname := c.P.FuncName(fn)
-	selFields := map[string]bool{"TargetType": true, "Patterns": true, "Tags": true, "ExcludeTags": false} // field -> required polarity
-	// calls on the narrowed *Target whose callee reads one of the selector fields
-	type pred struct {
-		call  ssa.CallInstruction
-		field string
-		pol   bool
+	selFields := map[string]bool{"TargetType": true, "Patterns": true, "Tags": true, "ExcludeTags": false} // field -> accepting polarity
+	region := regionOf(c, fn)
+	inRegion := func(e *engine.Edge) bool {
+		return e.Via != nil && region[engine.TopFunc(e.Via.Parent())] && e.Kind != engine.EField
 	}
-	var preds []pred
-	for _, s := range engine.SitesIn(fn) {
-		isTarget := false
-		for _, a := range s.Common().Args {
-			if engine.TypeKey(a.Type()) == "model.Target" {
-				isTarget = true
+	// fromField: the value is computed from Selector.<f> — it flows from the field inside the filter's
+	// region, or it is the result of a call whose callee reads the field
+	fromField := func(v ssa.Value, f string) bool {
+		if v == nil {
+			return false
+		}
+		key := fk("selection.Selector", f)
+		for _, o := range engine.Origins(v) {
+			if o == nil {
+				continue
 			}
-		}
-		if !isTarget {
-			continue
-		}
-		for _, cal := range c.G.Callees[s] {
-			for f, pol := range selFields {
-				if readsFieldDeep(c, cal, fk("selection.Selector", f)) {
-					preds = append(preds, pred{s, f, pol})
+			if c.G.Backward([]Node{o}, inRegion).Has(key) {
+				return true
+			}
+			if call, _ := engine.CallOf(o); call != nil {
+				for _, cal := range c.G.CalleesOf(call) {
+					if readsFieldDeep(c, cal, key) {
+						return true
+					}
+				}
+				for _, a := range call.Common().Args {
+					if c.G.Backward([]Node{a}, inRegion).Has(key) {
+						return true
+					}
 				}
 			}
 		}
+		return false
 	}
-	sort.Slice(preds, func(i, j int) bool { return preds[i].field < preds[j].field })
-	have := map[string]bool{}
-	for _, p := range preds {
-		have[p.field] = true
+	var fields []string
+	for f := range selFields {
+		fields = append(fields, f)
 	}
-	// returns that may be true on the target path
-	for f, pol := range selFields {
+	sort.Strings(fields)
+	for _, f := range fields {
+		pol := selFields[f]
 		key := "filter-conjunct/" + f + "/" + fname
-		if !have[f] {
+		if !readsFieldDeep(c, fn, fk("selection.Selector", f)) {
 			c.Bad("R12e", key, "the target filter never consults Selector."+f, c.P.Pos(fn.Pos()))
 			continue
-		}
-		var calls []ssa.CallInstruction
-		for _, p := range preds {
-			if p.field == f {
-				calls = append(calls, p.call)
-			}
 		}
 		op := "true"
 		if !pol {
 			op = "false"
+		}
+		accepting := func(a engine.Atom) bool {
+			// the predicate computed from this filter answered with the accepting polarity
+			if a.Op == op {
+				if _, isBool := a.V.Type().Underlying().(*types.Basic); isBool && fromField(a.V, f) {
+					if call, _ := engine.CallOf(firstOrigin(a.V)); call != nil {
+						return true
+					}
+				}
+			}
+			// an empty filter list accepts everything
+			if a.Op == "eq" || a.Op == "le" {
+				if arg, ok := lenArg(a.V); ok {
+					if k, isK := a.Other.(*ssa.Const); isK && k.Value != nil && k.Int64() == 0 && fromField(arg, f) {
+						return true
+					}
+				}
+			}
+			return false
 		}
 		ok := true
 		for _, r := range engine.Returns(fn) {
@@ -360,20 +382,11 @@ func ruleR12e(c *Check) {
 				if k, isK := engine.BoolConst(lf.Val); isK && !k {
 					continue
 				}
-				// a leaf that is this predicate's own result (with the right polarity) is fine
-				own := false
-				v := lf.Val
-				neg := false
-				if u, isU := v.(*ssa.UnOp); isU && u.Op.String() == "!" {
-					v, neg = u.X, true
-				}
-				if call, _ := engine.CallOf(v); call != nil && containsCall(calls, call) && neg == !pol {
-					own = true
-				}
-				if own {
+				// a leaf that is this predicate's own result (with the accepting polarity) is fine
+				if !engine.IsBoolConst(lf.Val) && accepting(engine.CondAtom(lf.Val, true)) {
 					continue
 				}
-				// otherwise the edge must be reachable only through the predicate's required branch
+				// otherwise the edge must be reachable only through an accepting branch of this filter
 				var at ssa.Instruction
 				if lf.Pred != nil {
 					at = lf.Pred.Instrs[len(lf.Pred.Instrs)-1]
@@ -384,12 +397,12 @@ func ruleR12e(c *Check) {
 				if onNonTargetPath(fn, at) {
 					continue
 				}
-				if reach, _ := engine.PathExists(fn, nil, engine.IsInstr(at), engine.PathQuery{CutEdge: engine.CutEdgesWhere(atomFromCall(op, 0, calls...))}); reach {
+				if reach, _ := engine.PathExists(fn, nil, engine.IsInstr(at), engine.PathQuery{CutEdge: engine.CutEdgesWhere(accepting)}); reach {
 					ok = false
 				}
 			}
 		}
-		c.Require(ok, "R12e", key, "a true result for a target requires "+f+" predicate == "+op, "the filter can return true for a target although the "+f+" predicate did not hold (conjunction weakened): targets outside the requested set would be built", c.P.Pos(fn.Pos()))
+		c.Require(ok, "R12e", key, "a true result for a target requires the "+f+" predicate == "+op+" (or an empty "+f+" filter)", "the filter can return true for a target although the "+f+" predicate did not hold (conjunction weakened): targets outside the requested set would be built", c.P.Pos(fn.Pos()))
 	}
 }
 
